@@ -81,7 +81,7 @@ class TimerOracle:
             if rec is not None and rec['sender'] == N:
                 continue                       # reflection of its own datagram: not from the peer
             st = self.sa.get((N, own))
-            if st is not None and h['exch'] != 34:
+            if st is not None and h['exch'] != 34 and st['state'] != '(not registered)':
                 st['last_rx'] = now            # IKE_SA_INIT copies are unprotected: nobody can tell they are authentic
             if h['R']:
                 key = (N, own, h['id'])
@@ -116,6 +116,8 @@ class TimerOracle:
                     # COOKIE / INVALID_KE_PAYLOAD retry: a new request with Message ID 0, the budget starts again
                     self._r('init_retry_after_cookie_or_ke')
                     self.tx[key] = {'first': e['data'], 'times': [tn], 'answered': False, 'exch': 34, 'n': 1}
+                    if (N, own) in self.sa:
+                        self.sa[(N, own)]['req_since'] = tn
                     continue
                 return self.viol('retransmission_differs', sig,
                                  f'{N} re-sent request id {h["id"]} ({sig["exchange"]}) with different octets '
@@ -123,6 +125,8 @@ class TimerOracle:
             if h['exch'] == 34 and own in init_res_delivered:
                 # identical retry is impossible after COOKIE/KE, but a duplicate response may re-trigger: new budget
                 self.tx[key] = {'first': e['data'], 'times': [tn], 'answered': False, 'exch': 34, 'n': 1}
+                if (N, own) in self.sa:
+                    self.sa[(N, own)]['req_since'] = tn
                 continue
             self._r('retransmissions_seen')
             if t['answered']:
